@@ -666,6 +666,9 @@ class C04(Prop):
         ("ctl server g0 o2 s2:000400 s2:0d0105 s2:0d0101 conn.A", "MAX_PUSH_ID going down (7.2.7: H3_ID_ERROR)"),
     ]
 
+    # reading R-04d: the same bytes, the control stream reset before the endpoint looks; whole / five chunks
+    RESET_PAIR = ("ctl server g0 o2 s2:0004000400 r2:7 conn.AL", "ctl server g0 o2 s2:00 s2:04 s2:00 s2:04 s2:00 r2:7 conn.AL")
+
     def extra(self, tier, rng, ctx):
         import vlib
         lines = [l for l, _ in self.RFC_WITNESSES]
@@ -680,6 +683,54 @@ class C04(Prop):
             if not vlib.spec_match(spec, impl):
                 res.append(("note", "outside C04's text (server push is not implemented, reading R-04b), RFC 9114 by the letter: %s: `%s` "
                                     "impl=`%s` RFC table=`%s`" % (what, l, impl.split(" | ")[0], spec), {}))
+        res += self.leniency_notes(ctx)
+        return res
+
+    def leniency_notes(self, ctx):
+        """Second audit: what the oracle's recorded leniencies (R-04d, R-04e, frame type 0x41) cover on THIS run:
+        engine `ctl note …` tells per line which of them it meets, the counts and witnesses are printed as NOTE lines."""
+        import vlib
+        idx = [i for i, l in enumerate(ctx["lines"]) if l.startswith("ctl ")]
+        ls = [ctx["lines"][i] for i in idx]
+        rc, tags, _ = vlib.run_lines(vlib.DRV, ["ctl note" + l[3:] for l in ls])
+        if rc != 0 or len(tags) != len(ls):
+            return [("broken", "C04: `ctl note` could not be run", {})]
+        closed = lambda i: ctx["impl"][i].split(" ")[0]
+        ov = [i for i, t in zip(idx, tags) if "overtaken=1" in t]
+        ov260 = [i for i in ov if closed(i) == "closed=[260]"]
+        qp = [i for i, t in zip(idx, tags) if "qpack=1" in t]
+        wt_seen = [i for i, t in zip(idx, tags) if "wtseen=1" in t]
+        wt_open = [i for i in wt_seen if ctx["spec"][i].strip() == "?"]
+        res = []
+        # R-04d: the witness pair on the real code
+        rc, out, _ = vlib.run_lines(vlib.RUN, list(self.RESET_PAIR))
+        rc2, out2, _ = vlib.run_lines(vlib.DRV, list(self.RESET_PAIR))
+        if rc != 0 or rc2 != 0 or len(out) != 2 or len(out2) != 2:
+            return [("broken", "C04: the witness pair of R-04d could not be run", {})]
+        pair = [project(l, r).split(" ")[0] for l, r in zip(self.RESET_PAIR, out)]
+        specs = [d.split(" ## ", 1)[1].strip() if " ## " in d else "?" for d in out2]
+        res.append(("note", "reading R-04d (a RESET of the control stream that arrives before the endpoint has looked at the frames in front of it "
+                            "may overtake them: the frame's own error OR H3_CLOSED_CRITICAL_STREAM, nothing else): %d lines of this run, the code answers "
+                            "260 in place of the frame's own code on %d of them; which of the two depends on the chunking "
+                            "(FrameStream::poll_next asks the transport before it decodes what it has buffered, h3/src/frame.rs): `%s` impl=`%s`, `%s` "
+                            "impl=`%s`, oracle on both=`%s`"
+                            % (len(ov), len(ov260), self.RESET_PAIR[0], pair[0], self.RESET_PAIR[1], pair[1], specs[0]), {}))
+        # R-04e: peer QPACK streams closed; judged by the RFC table
+        if qp:
+            qls = [ctx["lines"][i] for i in qp]
+            rc, rfc, _ = vlib.run_lines(vlib.DRV, ["ctlrfc" + l[3:] for l in qls])
+            if rc != 0 or len(rfc) != len(qls):
+                return [("broken", "C04: `ctlrfc` could not be run on the QPACK lines", {})]
+            dep = [i for i, d in zip(qp, rfc) if " ## " in d and not vlib.spec_match(d.split(" ## ", 1)[1].strip(), ctx["impl"][i])]
+            w = min((ctx["lines"][i] for i in dep), key=len) if dep else "-"
+            res.append(("note", "outside C04's text (it names the control stream only; reading R-04e), RFC 9204 4.2 by the letter: the peer's QPACK "
+                                "encoder / decoder stream closed or reset is H3_CLOSED_CRITICAL_STREAM: %d lines of this run close such a stream (the oracle "
+                                "accepts no error or 260), on %d of them the code departs from the RFC table (it never reads these streams: no error for the "
+                                "closing), shortest: `%s`" % (len(qp), len(dep), w), {}))
+        res.append(("note", "frame type 0x41 (WebTransport signal value) on the control stream: %d lines of this run have it among the control stream's "
+                            "events; the oracle has no opinion (`?`) on %d of them (the alternative that went past the frame: what follows cannot be read as "
+                            "frames), %d are judged (an error demanded before the frame stays demanded)"
+                            % (len(wt_seen), len(wt_open), len(wt_seen) - len(wt_open)), {}))
         return res
 
     def klass(self, line, impl):
